@@ -88,16 +88,7 @@ verus! {
 //@  | c\.encode_utf8\(&mut \[0; 4\]\)
 //@  > char_utf8(c).as_str()
 //@  ret res
-//@  spec
-    requires
-        source.spec_bytes().len() <= REALLY_MAX_LENGTH,
-        srcmap_ok(source_mapping@, source.spec_bytes().len() as int),
-        edits_ok(old(edits)@, source.spec_bytes()),
-        old(target)@.len() == 0,
-        old(target_mapping)@.len() == 0,
-    ensures
-        final(edits)@.len() == 0,
-        resolved(source.spec_bytes(), source_mapping@, old(edits)@, encode_utf8(final(target)@), final(target_mapping)@, res as int),
+//@  specfile specs/resolve_edits.contract
 //@  atstart
     broadcast use axiom_str_len_fits;
     let ghost e0 = edits@;
@@ -113,14 +104,14 @@ verus! {
 //@  loop 1
         invariant
             __d.items() == e0, e0 == old(edits)@, edits@.len() == 0, 0 <= __d.pos() <= e0.len(),
-            src == source.spec_bytes(), sm == source_mapping@, n == src.len(), n <= REALLY_MAX_LENGTH,
+            src == source.spec_bytes(), sm == source_mapping@, n == src.len(), n <= LIMIT_NORM(),
             edits_ok(e0, src), srcmap_ok(sm, n),
             is_char_boundary(src, 0), is_char_boundary(src, n),
             start == prev_end(e0, __d.pos()), start <= n,
             encode_utf8(target@) == out_bytes(src, e0, __d.pos()),
             target_mapping@.len() == tpos(src, e0, __d.pos()),
-            cur_len == len_after(src, e0, __d.pos()), cur_len <= REALLY_MAX_LENGTH,
-            forall|kk: int| 0 < kk <= __d.pos() ==> #[trigger] len_after(src, e0, kk) <= REALLY_MAX_LENGTH,
+            cur_len == len_after(src, e0, __d.pos()), cur_len <= LIMIT_NORM(),
+            forall|kk: int| 0 < kk <= __d.pos() ==> #[trigger] len_after(src, e0, kk) <= LIMIT_NORM(),
             mono(target_mapping@), bounded(target_mapping@, sm[n] as int),
             forall|i: int| 0 <= i < target_mapping@.len() ==> target_mapping@[i] <= sm[start as int],
             unrep(src, sm, e0, target_mapping@, __d.pos(), false),
@@ -137,7 +128,7 @@ verus! {
 //@  before start = edit.what.end;
         let ghost tg_b = target@;
         proof {
-            assert(tgt_bytes(e0[k].with).len() <= WITH_MAX());
+            assert(tgt_bytes(e0[k].with).len() <= with_max());
             let a = prev_end(e0, k); let b = e0[k].what.start as int;
             assert(exists|x: Seq<char>| tg_b == tg_a + x && #[trigger] encode_utf8(x) == src.subrange(a, b));
             let x = choose|x: Seq<char>| tg_b == tg_a + x && #[trigger] encode_utf8(x) == src.subrange(a, b);
@@ -157,7 +148,7 @@ verus! {
             assert(cur_len == len_after(src, e0, k + 1));
         }
 //@  before return cur_len as usize;
-            proof { assert(0 < k + 1 <= e0.len() && len_after(src, e0, k + 1) > REALLY_MAX_LENGTH); }
+            proof { assert(0 < k + 1 <= e0.len() && len_after(src, e0, k + 1) > LIMIT_NORM()); }
 //@  before target.push_str(str_slice(source, start, source.len()));
     let ghost tm_a = target_mapping@;
     let ghost tg_a = target@;
